@@ -11,7 +11,9 @@ Decided (Transaction::build_manifest, stable row ids):
   ORDER   in RowDatasetVersionSequence::mask and its sibling RowIdSequence::mask (used by compaction to drop deleted rows from
           the per-row sequences) the length of the current run that feeds the position arithmetic is read before the run is
           masked in that iteration: positions are offsets into the sequence as it was on entry
-Not decided: the per-row version sequences themselves (values), the delta queries.
+  TABLE   the two delta predicates (inserted / updated-but-not-inserted between two versions), parsed from their SQL templates
+          into {(column, operator, range end)} and compared with the definition as sets
+Not decided: the per-row version sequences themselves (values); that the scanner evaluates the predicate faithfully (C16).
 """
 from engine.cfg import op_place, expr_of
 from engine.facts import AnchorMissing
@@ -91,6 +93,7 @@ def run(db, chk):
     chk.assume("build_version_meta(fragment, v) stamps every physical row of the fragment with v")
     check_positions_refer_to_entry_state(db, chk)
     check_row_ids_are_not_addresses(db, chk)
+    check_delta_filters(db, chk)
 
 
 MASKS = ((r"rowids::version::RowDatasetVersionSequence::mask$", "lance-table/src/rowids/version.rs"),
@@ -176,6 +179,58 @@ def check_row_ids_are_not_addresses(db, chk):
     chk.floor(R, "address-arithmetic sites examined", sites, 10)
     if not n:
         chk.ob(R, "none", True, "%d address-arithmetic sites examined; none of them works on an element of a RowIdSequence" % sites, None)
+
+
+def check_delta_filters(db, chk):
+    """"The inserted-rows and updated-rows deltas between two versions contain exactly the rows ... inserted, or updated but
+    not inserted, in that range": given correct version columns this is decided by the predicate the delta builder hands to the
+    scanner.  The predicate is a conjunction of comparisons of the two version columns with the range ends: a finite table."""
+    import re
+    R = "TABLE-delta-filter"
+    chk.rule(R, "DatasetDelta: inserted = created in (begin, end]; updated = created <= begin and last-updated in (begin, end] "
+                "(the SQL templates are parsed into {(column, operator, range end)} and compared as sets)")
+    created = (db.consts.get("ROW_CREATED_AT_VERSION") or {}).get("val")
+    updated = (db.consts.get("ROW_LAST_UPDATED_AT_VERSION") or {}).get("val")
+    if not created or not updated:
+        raise AnchorMissing("version column name constants not found")
+    want = {
+        "inserted": {("created", ">", "begin"), ("created", "<=", "end")},
+        "updated": {("created", "<=", "begin"), ("updated", ">", "begin"), ("updated", "<=", "end")},
+    }
+    flip = {"<": ">", ">": "<", "<=": ">=", ">=": "<=", "=": "="}
+    got = []
+    for m in db.fmts:
+        if not m["file"].endswith("lance/src/dataset/delta.rs"):
+            continue
+        tpl = "".join(x["lit"] if "lit" in x else " $%d " % x["arg"] for x in m["pieces"])
+        if created not in tpl and updated not in tpl:
+            continue
+        rows, bad = set(), []
+        if re.search(r"\b(or|not)\b", tpl, re.I):
+            bad.append("OR / NOT in the predicate")
+        for conj in re.split(r"\band\b", tpl, flags=re.I):
+            mm = re.match(r"^\s*(\S+)\s*(<=|>=|<|>|=)\s*(\S+)\s*$", conj)
+            if not mm:
+                bad.append("unparsed `%s`" % conj.strip())
+                continue
+            a, op, b = mm.groups()
+            if a.startswith("$"):
+                a, b, op = b, a, flip[op]
+            col = "created" if a == created else "updated" if a == updated else None
+            src = m["args"][int(b[1:])]["src"] if b.startswith("$") and b[1:].isdigit() else ""
+            end = "begin" if "begin_version" in src else "end" if "end_version" in src else None
+            if col is None or end is None:
+                bad.append("`%s` (%s)" % (conj.strip(), src))
+                continue
+            rows.add((col, op, end))
+        got.append((m, rows, bad))
+    for name, table in want.items():
+        hits = [(m, rows, bad) for m, rows, bad in got if rows == table and not bad]
+        chk.ob(R, name, len(hits) == 1,
+               "%s-rows predicate %s" % (name, ("= %s" % sorted(table)) if len(hits) == 1 else
+                                         "not found as %s; predicates present: %s" % (sorted(table), [(sorted(r), b) for _, r, b in got])),
+               "%s:%s" % (hits[0][0]["file"], hits[0][0]["line"]) if hits else None)
+    chk.ob(R, "no-other-version-predicate", len(got) == 2, "%d predicate(s) over the version columns in dataset/delta.rs" % len(got), None)
 
 
 def _behind(c, local, limit=300):
